@@ -99,7 +99,7 @@ def _sym_task(pid, tier, seed, name, opts):
         env = None
         if r == "sat":
             p["sample"] = core.model_inputs(m, pr.inputs)
-            env = core._all_vars(m)
+            env = {k: v for k, v in core._all_vars(m).items() if not k.startswith("sqrt!")}  # roots are recomputed from their definitions
         elif r == "unsat":
             # the obligations' own divisors cannot all be non-zero on this path: values undefined
             p["status"] = "inconclusive" if pr.status == "ok" else pr.status
